@@ -725,6 +725,78 @@ func c15CopiesWorkload(g *hx.Gen) string {
 	return fmt.Sprintf("pw 0 %d %d 64 %s %s %s", minLen, minIDm, strings.Join(plants, ";"), string(target), string(query))
 }
 
+// a decoy right at the length boundary (unlisted: it must not be reported): one copy 1-3 letters longer than the
+// minimum hit length, the other copy the same segment with 2-7 letters deleted (one to four deletions of 1-3
+// letters, at least 12 letters apart and 15 from either end), so that it is shorter than the minimum on that side
+// only while the identity stays above the minimum (error 5d/(4*long) resp. d/short, at most 0.09).  shortInTarget:
+// the target copy is the short one.  An aligner that enforces the minimum length on one sequence only reports it
+// (seeded change C15-m1: the target-side test reads lowEnd.Abpos, which is always 0).
+func c15LengthDecoyWorkload(g *hx.Gen, shortInTarget bool) string {
+	minLen := g.Pick(100, 120, 150)
+	minIDm := g.Pick(850, 900)
+	long := minLen + g.Range(1, 3)
+	short := minLen - g.Range(1, 4)
+	d := long - short
+	if d > 7 {
+		d = 7
+		short = long - d
+	}
+	seg := g.Letters("acgt", long)
+	// deletions: widths summing to d
+	var widths []int
+	for left := d; left > 0; {
+		w := g.Range(2, 3) // at most four pieces
+		if w > left {
+			w = left
+		}
+		widths = append(widths, w)
+		left -= w
+	}
+	// positions in the long copy, ascending, >= 12 apart, >= 15 from the ends
+	cp := append([]byte{}, seg...)
+	room := long - 30 - 3
+	step := room / len(widths)
+	var cuts []int
+	for i := range widths {
+		cuts = append(cuts, 15+i*step+g.Intn(step-12+1))
+	}
+	for i := len(cuts) - 1; i >= 0; i-- {
+		cp = append(cp[:cuts[i]], cp[cuts[i]+widths[i]:]...)
+	}
+	self := g.Chance(0.25)
+	target := g.Letters("acgt", g.Range(2000, g.Scale(4000, 12000)))
+	var query []byte
+	if !self {
+		query = g.Letters("acgt", g.Range(2000, g.Scale(4000, 12000)))
+	}
+	tcopy, qcopy := seg, cp
+	if shortInTarget {
+		tcopy, qcopy = cp, seg
+	}
+	comp := g.Chance(0.4)
+	if comp {
+		qcopy = c15RevComp(qcopy)
+	}
+	qseq := query
+	if self {
+		qseq = target
+	}
+	a := g.Intn(len(target) - len(tcopy))
+	b := g.Intn(len(qseq) - len(qcopy))
+	if self {
+		// two disjoint places, the target-side copy first
+		a = g.Intn(len(target)/2 - len(tcopy))
+		b = len(target)/2 + g.Intn(len(target)/2-len(qcopy))
+	}
+	copy(target[a:], tcopy)
+	copy(qseq[b:], qcopy)
+	q := "-"
+	if !self {
+		q = string(query)
+	}
+	return fmt.Sprintf("pw %s %d %d 64 - %s %s", hx.B(self), minLen, minIDm, string(target), q)
+}
+
 func c15GenOptimise(g *hx.Gen) {
 	n := g.Scale(3000, 100000)
 	for i := 0; i < n && !g.Done(); i++ {
@@ -758,6 +830,10 @@ func c15Gen(g *hx.Gen) {
 		}
 		if i%10 == 2 {
 			g.Case(c15MirrorWorkload(g))
+			continue
+		}
+		if i%10 == 1 {
+			g.Case(c15LengthDecoyWorkload(g, (i/10)%3 != 2))
 			continue
 		}
 		if i%10 == 5 {
@@ -808,6 +884,31 @@ func c15FuncFingerprint(fset *token.FileSet, file *ast.File, name string) (strin
 		return fmt.Sprintf("%x", sha256.Sum256([]byte(norm)))[:16], nil
 	}
 	return "", fmt.Errorf("function %s not found", name)
+}
+
+// c15MethodFingerprint is c15FuncFingerprint for a method, looked up by the name of its receiver type
+func c15MethodFingerprint(fset *token.FileSet, file *ast.File, recv, name string) (string, error) {
+	for _, d := range file.Decls {
+		fd, ok := d.(*ast.FuncDecl)
+		if !ok || fd.Name.Name != name || fd.Recv == nil || len(fd.Recv.List) != 1 {
+			continue
+		}
+		t := fd.Recv.List[0].Type
+		if st, isStar := t.(*ast.StarExpr); isStar {
+			t = st.X
+		}
+		id, isID := t.(*ast.Ident)
+		if !isID || id.Name != recv {
+			continue
+		}
+		var sb strings.Builder
+		if err := printer.Fprint(&sb, fset, fd); err != nil {
+			return "", err
+		}
+		norm := strings.Join(strings.Fields(sb.String()), " ")
+		return fmt.Sprintf("%x", sha256.Sum256([]byte(norm)))[:16], nil
+	}
+	return "", fmt.Errorf("method %s.%s not found", recv, name)
 }
 
 func palsConstFacts(repo string) (string, error) {
@@ -896,6 +997,19 @@ func palsConstFacts(repo string) (string, error) {
 			return "", err
 		}
 		fp, err := c15FuncFingerprint(fs2, f2, t.fn)
+		if err != nil {
+			return "", err
+		}
+		fmt.Fprintf(&sb, "def %s : String := %q\n", t.lean, fp)
+	}
+	// the two orders the suppression of AlignTraps sorts by (the model sorts by both coordinates)
+	for _, t := range []struct{ recv, lean string }{{"starts", "fpStartsLess"}, {"ends", "fpEndsLess"}} {
+		fs2 := token.NewFileSet()
+		f2, err := parser.ParseFile(fs2, filepath.Join(repo, "align", "pals", "dp", "sort.go"), nil, 0)
+		if err != nil {
+			return "", err
+		}
+		fp, err := c15MethodFingerprint(fs2, f2, t.recv, "Less")
 		if err != nil {
 			return "", err
 		}
